@@ -82,13 +82,28 @@ def has_debug_params(td):
     return False
 
 
-def gen_case(seed, k, cap):
+def gen_case(seed, k, cap, force_wide=False):
     rng = rng_for(seed, PROP, "case", k)
     ts = ["Debug"] + rng.sample(["Clone", "PartialEq", "Hash", "Default", "PartialOrd"], rng.randint(0, 2))
     rng.shuffle(ts)
     plain = rng.random() < 0.2
-    td = G.random_type(rng, ts, G.Opts(p_attr=0.0 if plain else 0.9, max_fields=4, max_variants=4,
-                                       raw_idents=0.0, allow_empty_enum=False, p_repr=0.3))
+    if rng.random() < 0.04 or force_wide:
+        # more shown fields than the largest tuple core implements Debug for, in every style and with / without a name
+        td = G.random_type(rng, ts, G.Opts(p_attr=0.15, min_fields=13, max_fields=16, max_variants=2, raw_idents=0.0,
+                                           allow_empty_enum=False, kind=rng.choice(["struct", "struct", "enum"])))
+        if td.kind == "struct" and td.variants[0].style != "unit":
+            td.tsem.setdefault("Debug", {})
+            r = rng.random()
+            if r < 0.5:
+                td.tsem["Debug"]["name"] = False
+            td.tsem["Debug"]["named_field"] = rng.random() < 0.5
+            if not td.tsem["Debug"]["named_field"]:
+                for f in td.variants[0].fields:
+                    if f.sem.get("Debug", {}).get("name") is not None:
+                        f.sem["Debug"] = {k2: v2 for k2, v2 in f.sem["Debug"].items() if k2 != "name"}
+    else:
+        td = G.random_type(rng, ts, G.Opts(p_attr=0.0 if plain else 0.9, max_fields=4, max_variants=4,
+                                           raw_idents=0.0, allow_empty_enum=False, p_repr=0.3))
     text = S.render(td, rng_for(seed, PROP, "spell", k), extras=False)
     vals = S.values(td, cap, rng)
     glue = ref_fmt(td)
